@@ -137,6 +137,19 @@ def check_pandas(case, stats=None):
     a_names, b_names = case.get('a_names'), case.get('b_names')
     df = pandas.DataFrame(copy.deepcopy(case['A']), columns=a_names)
     dfb = pandas.DataFrame(copy.deepcopy(case['B']), columns=b_names) if case.get('B') is not None else None
+    # index shapes a caller's dataframe can have (a function of the case, so that replay is exact)
+    variant = (len(case['A']) + len(text)) % 5
+    for d in (df, dfb):
+        if d is None:
+            continue
+        if variant == 1:
+            d.index.name = 'idx'
+        elif variant == 2:
+            d.index = pandas.Index(['r%d' % (len(d) - i) for i in range(len(d))], name='kind')
+        elif variant == 3:
+            d.index = pandas.Index(list(range(len(d), 0, -1)))
+        elif variant == 4:
+            d.columns.name = 'cols'
     snap, snapb = df.copy(deep=True), (dfb.copy(deep=True) if dfb is not None else None)
     err = None
     try:
@@ -145,11 +158,12 @@ def check_pandas(case, stats=None):
         err = engine.err_info(e)
     if stats is not None:
         upd = text.lower().startswith('update')
-        stats.case(case, bool(upd or err is not None), ['pandas', 'pandas-update' if upd else 'pandas-select'] + (['pandas-failing'] if err else []), sample={'query': text, 'columns': a_names, 'error': err})
+        stats.case(case, bool(upd or err is not None), ['pandas', 'pandas-update' if upd else 'pandas-select', 'pandas-index-variant-%d' % variant] + (['pandas-failing'] if err else []), sample={'query': text, 'columns': a_names, 'error': err})
     for name, d, s in (('input', df, snap), ('join', dfb, snapb)):
         if d is None:
             continue
-        if not d.equals(s) or list(d.dtypes) != list(s.dtypes) or not d.index.equals(s.index) or not d.columns.equals(s.columns):
+        if (not d.equals(s) or list(d.dtypes) != list(s.dtypes) or not d.index.equals(s.index) or not d.columns.equals(s.columns)
+                or list(d.index.names) != list(s.index.names) or list(d.columns.names) != list(s.columns.names) or type(d.index) is not type(s.index)):
             raise Violation('pandas-%s-dataframe-modified' % name, {'query': text, 'before': s.values.tolist(), 'after': d.values.tolist()})
 
 
